@@ -344,7 +344,7 @@ def check_weed_e2e(facts, chk, rule, tier):
         [('s0', ['ACCAGTTGACCAT', 'GGTACCA']), ('s1', ['ACCAGATGACC', 'TGGTACC', 'ACCAGCTGA'])],      # s1 carries an ambiguous middle base (two copies differing at one site)
         [('a', ['AACCGGTTAACCA']), ('b', ['AACCGTTTAACCA', 'AACCGATTAACCA']), ('c', ['TTGGC'])],
     ]
-    weeds = [['CAGTTGAC'], ['GTCAACTG'], ['ACCNGTTGAC', 'GGGGGGG'], ['TTTTTTTT'], ['ACCAGTTGACCAT', 'GGTACCA', 'ACCAGATGACC', 'AACCGGTTAACCA', 'AACCGTTTAACCA']]
+    weeds = [['CAGTTGAC'], ['GTCAACTG'], ['ACCNGTTGAC', 'GGGGGGG'], ['TTTTTTTT'], ['GTTGACC', 'ACG', 'NNANN', 'GGTACCA', 'AACCGG'], ['ACCAGTTGACCAT', 'GGTACCA', 'ACCAGATGACC', 'AACCGGTTAACCA', 'AACCGTTTAACCA']]
     for samples in sample_sets:
         for rc in (1, 0):
             for weed in weeds:
